@@ -191,6 +191,10 @@ class ProgressivelyTerminalDecider(BaseDecider):
                 return target - self.grammar.get_distance_to_terminal(n)
 
         weights = [w(alt) * self.grammar.get_weights()[alt] for alt in alternatives]
+        if not any(x > 0 for x in weights):
+            # The depth heuristic cancelled every alternative: decide by the production weights alone,
+            # otherwise choice_weighted falls through to the first alternative, whatever its weight.
+            weights = [self.grammar.get_weights()[alt] for alt in alternatives]
         return self.random.choice_weighted(alternatives, weights)
 
 
